@@ -86,6 +86,17 @@ int main(int argc, char** argv) {
     auto M2 = glm::recompose(sc, o, tr, sk, pe);
     T d = 0; for (int c = 0; c < 4; ++c) for (int r = 0; r < 4; ++r) d = std::max(d, std::abs(M[c][r] - M2[c][r])); return d; });
   // lookAt: the rotation block is orthonormal
+  // gtx/matrix_interpolation: axisAngle(axisAngleMatrix(axis, a)) recovers the rotation; interpolate(m1, m2, t) is m1 at 0 and m2 at 1
+  add_prop("p_axisangle_rt", 4, 5e-3, 1e-6, [](auto const* x) { using T = TY(x); auto ax = ldv<3, T>(x); T ang = std::abs(x[3]) * T(0.7) + T(0.1);   // angle in (0.1, 1.5)
+    if (!(glm::length(ax) > T(0.3))) return T(-1);
+    auto m = glm::axisAngleMatrix(ax, ang); V3<T> ax2; T ang2; glm::axisAngle(m, ax2, ang2); auto m2 = glm::axisAngleMatrix(ax2, ang2);
+    T d = 0; for (int c = 0; c < 4; ++c) for (int r = 0; r < 4; ++r) d = std::max(d, std::abs(m[c][r] - m2[c][r])); return d; });
+  add_prop("p_interpolate_ends", 14, 5e-3, 1e-6, [](auto const* x) { using T = TY(x); auto a1 = ldv<3, T>(x), a2 = ldv<3, T>(x + 3);
+    if (!(glm::length(a1) > T(0.3)) || !(glm::length(a2) > T(0.3))) return T(-1);
+    auto m1 = glm::axisAngleMatrix(a1, std::abs(x[6]) * T(0.5) + T(0.1)), m2 = glm::axisAngleMatrix(a2, std::abs(x[7]) * T(0.5) + T(0.1));
+    for (int i = 0; i < 3; ++i) { m1[3][i] = x[8 + i]; m2[3][i] = x[11 + i]; }
+    auto r0 = glm::interpolate(m1, m2, T(0)), r1 = glm::interpolate(m1, m2, T(1));
+    T d = 0; for (int c = 0; c < 4; ++c) for (int r = 0; r < 3; ++r) { d = std::max(d, std::abs(r0[c][r] - m1[c][r])); d = std::max(d, std::abs(r1[c][r] - m2[c][r])); } return d; });
   add_prop("p_lookat_orth", 9, 2e-3, 1e-9, [](auto const* x) { using T = TY(x); auto e = ldv<3, T>(x), c = ldv<3, T>(x + 3), u = ldv<3, T>(x + 6);
     auto f = c - e; if (!(glm::length(f) > T(0.3)) || !(glm::length(u) > T(0.3))) return T(-1);
     if (!(glm::length(glm::cross(glm::normalize(f), glm::normalize(u))) > T(0.2))) return T(-1);
